@@ -1,8 +1,53 @@
-/* HTM boundary of the speculative mutexes: "no speculation / always abort". _xbegin() never starts a transaction; it returns an
- * abort status chosen by the solver (any value except _XBEGIN_STARTED = 0xFFFFFFFF), so that every retry / give-up decision of
- * the real acquire loops is explored. _xend/_xabort can then only be reached through a bug. HTM behaviour itself is OUTSIDE. */
-/* A thread that calls _xbegin is making progress (its retry counter advances, the real loops give up after 10 aborts): the call
- * counts as a state change for the blocked-state oracle, otherwise "keeps retrying in both forced rounds" would look like a deadlock. */
-u32 vp_xbegin(void) { u32 c = (u32)vp_nd_range(0, 0xFFFFFFFEull); vp_changed = 1; return c; }
-void vp_xend(void) { VP_ASSERT(0, "_xend reached although no transaction was started"); }
-void vp_xabort(u32 code) { VP_ASSERT(0, "_xabort reached although no transaction was started"); }
+/* HTM boundary of the speculative mutexes (rtm_mutex, rtm_rw_mutex).
+ * Model: a transaction either COMMITS ATOMICALLY or has NO EFFECT (sound under-approximation of real HTM histories):
+ *  - _xbegin() returns, chosen by the solver, either an abort status (any value except _XBEGIN_STARTED = 0xFFFFFFFF: the real code
+ *    takes its retry / fallback decisions on it) or - if the scenario allows this thread to speculate (TXt = 1) - _XBEGIN_STARTED,
+ *    and then the thread is inside a transaction (in_txn[t]);
+ *  - _xend() commits; _xabort() inside a transaction and anything else that would abort a real transaction (sched_yield) is
+ *    __CPROVER_assume(0): that path is no committed transaction, and its outcome "aborted without any effect" is the
+ *    abort-at-begin branch (with every status value);
+ *  - atomicity: after every slice of a model thread (free and forced rounds, VP_TXCHK) the harness assumes !in_txn[t], i.e. no
+ *    context switch falls inside a transaction: all and only the histories in which every committed transaction is serialised at
+ *    one instant. Conflict-induced aborts = abort-at-begin branch. Outside: conflict-detection granularity (false sharing),
+ *    capacity / interrupt aborts at arbitrary points *with partial architectural visibility* (there is none on real HTM either),
+ *    nested transactions.
+ * TXt = 0 (default): thread t never starts a transaction ("always abort": only the fallback path, as before).
+ * A thread that calls _xbegin is making progress (its retry counter advances, the real loops give up after 10 aborts): the call
+ * counts as a state change for the blocked-state oracle. */
+#ifndef TX0
+#define TX0 0
+#endif
+#ifndef TX1
+#define TX1 0
+#endif
+#ifndef TX2
+#define TX2 0
+#endif
+int in_txn[3]; unsigned txn_commits;
+static const int txmode[3] = { TX0, TX1, TX2 };
+u32 vp_xbegin(void) {
+  vp_changed = 1;
+  if (txmode[vp_cur] && vp_nd_bool()) { VP_ASSERT(!in_txn[vp_cur], "nested transaction"); in_txn[vp_cur] = 1; return 0xFFFFFFFFu; }
+  return (u32)vp_nd_range(0, 0xFFFFFFFEull);
+}
+void vp_xend(void) { VP_ASSERT(in_txn[vp_cur], "_xend outside a transaction"); in_txn[vp_cur] = 0; txn_commits++; }
+void vp_xabort(u32 code) { VP_ASSERT(in_txn[vp_cur], "_xabort outside a transaction"); __CPROVER_assume(0); }
+u32 vp_xtest(void) { return in_txn[vp_cur]; }
+/* (the harness defines VP_OWN_YIELD before including vp.h) */
+u32 vpx_sched_yield(void) { __CPROVER_assume(!in_txn[vp_cur]); return 0; }   /* a system call aborts a transaction */
+#define VP_TXCHK(t) __CPROVER_assume(!in_txn[t]);
+/* forced rounds with the atomicity assumption after every slice (same oracle as VP_QUIESCE2S/3S of rt/vp.h) */
+#define VP_QUIESCE2T(a, b) VP_QUIESCE2T_(a, b)
+#define VP_QUIESCE2T_(a, b) \
+  vp_cur = 0; VP_RUNMAX(a) VP_TXCHK(0) vp_cur = 1; VP_RUNMAX(b) VP_TXCHK(1) \
+  int vp_pb_ = VP_STUCK(a) && VP_STUCK(b); unsigned vp_pca_ = a##_pc, vp_pcb_ = b##_pc; vp_changed = 0; \
+  vp_cur = 0; VP_RUNMAX(a) VP_TXCHK(0) vp_cur = 1; VP_RUNMAX(b) VP_TXCHK(1) \
+  int vp_unfinished = !a##_fin || !b##_fin; \
+  int vp_deadlock = vp_unfinished && vp_pb_ && VP_STUCK(a) && VP_STUCK(b) && !vp_changed && vp_pca_ == a##_pc && vp_pcb_ == b##_pc;
+#define VP_QUIESCE3T(a, b, c) VP_QUIESCE3T_(a, b, c)
+#define VP_QUIESCE3T_(a, b, c) \
+  vp_cur = 0; VP_RUNMAX(a) VP_TXCHK(0) vp_cur = 1; VP_RUNMAX(b) VP_TXCHK(1) vp_cur = 2; VP_RUNMAX(c) VP_TXCHK(2) \
+  int vp_pb_ = VP_STUCK(a) && VP_STUCK(b) && VP_STUCK(c); unsigned vp_pca_ = a##_pc, vp_pcb_ = b##_pc, vp_pcc_ = c##_pc; vp_changed = 0; \
+  vp_cur = 0; VP_RUNMAX(a) VP_TXCHK(0) vp_cur = 1; VP_RUNMAX(b) VP_TXCHK(1) vp_cur = 2; VP_RUNMAX(c) VP_TXCHK(2) \
+  int vp_unfinished = !a##_fin || !b##_fin || !c##_fin; \
+  int vp_deadlock = vp_unfinished && vp_pb_ && VP_STUCK(a) && VP_STUCK(b) && VP_STUCK(c) && !vp_changed && vp_pca_ == a##_pc && vp_pcb_ == b##_pc && vp_pcc_ == c##_pc;
